@@ -13,6 +13,7 @@ sys.path.insert(0, os.path.dirname(os.path.abspath(__file__)))
 import recovery_common as rc  # noqa: E402
 
 REQUIRED = [
+    "via:cmd", "via:connect", "via:connect,stale-epoch,offset-retained",
     "state:no-stream(meta-expired-or-never)", "state:meta-expired(new-epoch,top0)", "state:empty-top0",
     "state:cleared-top-kept(expired-or-removed)", "state:cleared-after-remove-op", "state:trimmed", "state:full",
     "req:epoch-mismatch", "req:epoch-empty", "req:epoch-match", "req:offset-beyond-top", "req:offset=top",
